@@ -95,7 +95,7 @@ class XPathMap(XPathFunction):
                 if k is None:
                     raise self.error('XPTY0004', 'missing key value')
                 elif isinstance(k, float) and math.isnan(k):
-                    if self._nan_key is False:
+                    if self._nan_key is not False:
                         raise self.error('XQDY0137')
                     self._nan_key, _map[None] = k, v
                     continue
